@@ -44,7 +44,7 @@ m = {
         "add_only": True,
     },
     "engines": [{
-        "name": "lean4-proof+correspondence", "path": "/verif/lean + /verif/harness + /verif/extract + /verif/checklib",
+        "name": "lean4-proof+correspondence", "path": "/verif/lean + /verif/harness (incl. the fact generators, `harness facts`) + /verif/checklib",
         "serves_properties": [c["property_id"] for c in checks],
         "kind_free_text": "Lean 4 theorems over an executable model (kernel-checked, axioms audited) + facts regenerated from the Go source + differential correspondence check between the compiled Lean model and the real Go code run in-process",
     }],
